@@ -35,6 +35,10 @@ CLASSES = {
     "cX": dict(lp=100, aspath=[seq(255), seq(1)], origin=0, clen=0, oid=0, comm=[], mm=0),   # 256 hops
     "cM": dict(lp=50, aspath=[seq(3)], origin=2, clen=0, oid=0, comm=[], mm=3),           # MAC mobility seq 2 (mm = seq+1)
     "cm": dict(lp=300, aspath=[seq(1)], origin=0, clen=0, oid=0, comm=[], mm=1),          # MAC mobility seq 0
+    # EVPN extended communities that are NOT MAC Mobility (type 0x06 with another sub-type: Router's MAC 0x03, ESI Label 0x01),
+    # alone and in front of a real MAC Mobility community: only sub-type 0x00 counts for the mobility step
+    "cR": dict(lp=100, aspath=[seq(1)], origin=0, clen=0, oid=0, comm=[], mm=0, xc=["0603ffffffffffff"]),
+    "cE": dict(lp=100, aspath=[seq(1)], origin=0, clen=0, oid=0, comm=[], mm=2, xc=["0601000000ffffff", "0603020000000009"]),
     # classes carrying route targets (C20, VRF clause): r1 ties with c1, r2 ties with r1, r3 wins on LOCAL_PREF, r4 loses on AS_PATH
     "r1": dict(lp=100, aspath=[seq(1)], origin=0, clen=0, oid=0, comm=[], mm=0, rts=[1]),
     "r2": dict(lp=100, aspath=[seq(1, 65200)], origin=0, clen=0, oid=0, comm=[], mm=0, rts=[2]),
@@ -183,7 +187,7 @@ def harness_config(cfg):
     for cn in cfg.classes:
         c = CLASSES[cn]
         classes[cn] = {"lp": c["lp"], "aspath": [[t, a] for t, a in c["aspath"]], "origin": c["origin"],
-                       "clen": c["clen"], "oid": c["oid"], "comm": c["comm"], "mm": c["mm"]}
+                       "clen": c["clen"], "oid": c["oid"], "comm": c["comm"], "mm": c["mm"], "xc": c.get("xc", [])}
     return {"sessions": sessions, "prefixes": {p: PREFIXES[p] for p in cfg.prefixes},
             "nexthops": {n: NEXTHOPS[n] for n in cfg.nexthops}, "classes": classes}
 
@@ -286,7 +290,14 @@ def compare_step(cfg, model_post, model_res, real, consumer, pre_ids, findings, 
             lid2 = {x["lid"]: ident(x) for x in r_list}
             r_ecmp = sorted(lid2[l] for l in el["ecmp"])
             m_ecmp = sorted(ident(e) for e in model_post["ecmp"][p])
-            if r_ecmp != m_ecmp:
+            if p in cfg.evpn:
+                # the statement asks of the ECMP list only that it is a prefix of the ranking; "tied before the router-id
+                # step" (C20) is about the IPv4 / IPv6 prefixes that reach the FIB, and says nothing of the mobility step
+                k = len(el["ecmp"])
+                if k == 0 or list(el["ecmp"]) != [x["lid"] for x in r_list[:k]]:
+                    bad.append(("c02.ecmp", {"prefix": p, "ecmp": list(el["ecmp"]), "ranking": [x["lid"] for x in r_list],
+                                             "why": "the ECMP list is not a prefix of the ranking"}))
+            elif r_ecmp != m_ecmp:
                 bad.append(("c02.ecmp", {"prefix": p, "expected": m_ecmp, "actual": r_ecmp}))
             lids = [x["lid"] for x in r_list]
             if len(set(lids)) != len(lids):
